@@ -175,6 +175,27 @@ def bounded(tier, seed, procs):
                 if not (r[0] == "exc" and issubclass(r[1], TypeError)):
                     b.fail(Failure("operator-programs", f"op=ordering {opn} lhs={lhs!r} rhs={other!r}", dict(kind="order", op=opn), expected="TypeError", actual=outcome.describe(r),
                                    functions=["Expression.__lt__ etc."]))
+    # zeros and ones of the small number types, and what is computed with the result afterwards (the folded value must behave like the plain product / sum)
+    import numpy as np
+    zoo = [("False", False), ("int8-0", np.int8(0)), ("uint8-0", np.uint8(0)), ("float-0", 0.0), ("True", True), ("int8-1", np.int8(1)), ("uint8-1", np.uint8(1)),
+           ("float32-0", np.float32(0)), ("bool_-False", np.False_)]
+    follow = [("z*x+100+100", lambda v, z: z * v + 100 + 100), ("x*z+100+100", lambda v, z: v * z + 100 + 100), ("x*z-1", lambda v, z: v * z - 1), ("(x*z)*300", lambda v, z: (v * z) * 300),
+              ("(x+z)*200+100", lambda v, z: (v + z) * 200 + 100), ("(x**z)*200+100", lambda v, z: (v ** z) * 200 + 100), ("x*z+x", lambda v, z: v * z + v), ("-(z*x)-1", lambda v, z: -(z * v) - 1)]
+    for (zn, z), (fn_, f_) in itertools.product(zoo, follow):
+        if isinstance(z, (bool, np.bool_)) and "x+z" in fn_:
+            continue        # bool operands of + are the known finding C03-add-bool-operand
+        built = outcome.run(lambda: f_(x, z))
+        # small numpy integers: only next to values that promote the plain computation (an int8 next to a Python int stays int8 and overflows by itself)
+        xs_ = (np.int64(7), 2.5, np.int64(-3)) if isinstance(z, np.integer) else (3, 7, Fraction(5, 2), -2) if not isinstance(z, np.floating) else (3, 2.5, -2)
+        for vx in xs_:
+            want = outcome.run(lambda: f_(vx, z))
+            if want[0] != "val":
+                continue
+            b.case(("zoo", zn, fn_, repr(vx)), nontrivial=True, sample=dict(constant=zn, program=fn_, x=repr(vx)))
+            got = outcome.run(lambda: EvaluationMapper({"x": vx})(built[1])) if built[0] == "val" else built
+            if not (got[0] == "val" and outcome.same_value(got[1], want[1], typed=False)):
+                b.fail(Failure("operator-programs", f"op=number-zoo constant={zn} program={fn_} x={vx!r} tree={built[1] if built[0] == 'val' else None!r}",
+                               dict(kind="zoo", constant=zn, program=fn_, x=repr(vx)), expected=outcome.describe(want), actual=outcome.describe(got)[:150], functions=["Expression.__mul__", "Expression.__rmul__", "Product.__mul__"]))
     # non-commuting operands: splicing keeps operand order
     b2 = BoundedRun("non-commuting", rule="operator programs over variables a, b, c, d bound to 2x2 integer matrices (non-commuting *): products of products, "
                     "negations, scalar factors on either side; tree value == plain value; non-trivial = all",
